@@ -27,6 +27,19 @@ CHECKS = {
     ),
 }
 
+CHECKS["C17"] = dict(
+    level="proof",
+    technique="static analysis: ast -> sympy term extraction + CAS identities (Jacobian = derivative of map, inverse, centre slope); "
+              "CFG must-pass-through typestate for cache coherence; effect comparison constructor vs rescaling method; override pairing",
+    text="The quantifiers of the property (all scale combinations, all sequences of rescaling calls) are discharged symbolically: the "
+         "Jacobian of each of the six maps is proved equal to the derivative of the map as terms of the source (sympy cancel), the "
+         "inverse of the simple map and the centre slope L/r of the three-scale map (after substituting aIn/aOut and the class's own "
+         "asserts) are identities, positivity is a sign analysis, and history independence is a typestate rule: every public method "
+         "that stores a map parameter re-caches on every CFG path, nobody else writes them, and every attribute whose constructor "
+         "value depends on a rescaled argument is re-assigned equivalently by the rescaling method.",
+    note=COMMON_NOTE + " Monotonicity of the three-scale map for 1/2 <= smoothing < 1 is not decided. Known finding F7 (inherited inverse map).",
+)
+
 NOT_APPLICABLE = {}
 
 ENGINES = [
